@@ -233,7 +233,7 @@ private theorem extendType_err (env : Env) (exts : List TypeDef) (t : TypeD) (e 
       · exact foldlM_err _ (fun acc x e h => mergeStep_err (buildArgument env) (buildArgument_err env) (·.name) (·.inputFields) acc x e h) _ _ e h3
       · simp [pure, Except.pure] at h4
 
-private theorem extendSchema_err (env : Env) (live : Live) (doc : Doc) (e : Err) (h : extendSchema env live doc = .error e) : Good e := by
+private theorem extendSchema_err (env : Env) (live : Live) (doc : Doc) (add : List TypeD) (e : Err) (h : extendSchema env live doc add = .error e) : Good e := by
   unfold extendSchema at h
   simp only [] at h
   split at h
@@ -263,7 +263,7 @@ theorem build_rejects (doc : Doc) (ie : Bool) (add : List TypeD) (e : Err) (h : 
     split at h2
     · simp [pure, Except.pure] at h2
     · rcases bind_err _ _ _ h2 with h5 | ⟨_, _, h6⟩
-      · exact extendSchema_err env live doc e h5
+      · exact extendSchema_err env live doc add e h5
       · simp [pure, Except.pure] at h6
 
 /-- `input A { a: A = {a: null} }  type Query { f(a: A): Int }` (finding S1b) -/
